@@ -34,9 +34,10 @@ NumAccepts(base, levels, v) ==
 \* lengths are small naturals (TLC integers); bounds are numerals of small naturals
 NatOf(s) == CHOOSE n \in 0..300 : ToString(n) = s
 
+\* min stands for 0, max for a length no string of the model has
 LenAltHolds(alt, len) ==
-    /\ (alt.lo = "min" \/ NatOf(alt.lo) <= len)
-    /\ (alt.hi = "max" \/ len <= NatOf(alt.hi))
+    /\ CASE alt.lo = "min" -> TRUE [] alt.lo = "max" -> FALSE [] OTHER -> NatOf(alt.lo) <= len
+    /\ CASE alt.hi = "max" -> TRUE [] alt.hi = "min" -> len = 0 [] OTHER -> len <= NatOf(alt.hi)
 
 LenLevelOK(lvl, len) ==
     lvl.lens = << >> \/ \E i \in DOMAIN lvl.lens : LenAltHolds(lvl.lens[i], len)
